@@ -385,6 +385,14 @@ def job_query(item):
     if val is None:
         out["refusals"].append({"id": name, "type": "NoLimit", "msg": "limit_seq returned None", "where": "cli/common.py:transform_to_after_loop"})
         return out
+    nsyms = [s_ for s_ in sp.sympify(val).free_symbols if s_.name == "n"]
+    if nsyms:
+        v1, v2 = sp.simplify(sp.sympify(val).subs({s_: 1 for s_ in nsyms})), sp.simplify(sp.sympify(val).subs({s_: 5 for s_ in nsyms}))
+        if not syms and sp.simplify(v1 - v2) != 0:
+            out["records"].append({"kind": "violation", "key": name, "tag": name,
+                                   "what": f"{kind} query on {shape}: the reported value after the loop still depends on the iteration count n: {str(val)[:160]} (n=1: {v1}, n=5: {v2})",
+                                   "replay": {"shape": str(shape), "kind": kind, "code": code, "reported": str(val)}})
+            return out
     truth = joint(shape, vs, sp)
     pe = sum(p for v, p in truth.items() if all(v[i] == x for i, x in evidence))
     if kind == "inference":
@@ -532,7 +540,7 @@ def main():
     checked = paths = muts = groups = validated = 0
     for (f, arg, name), (st, val) in zip(work, results):
         if st != "ok":
-            run.inconc(f"{name[:100]}: job {st} {str(val)[:300] if val else ''}")
+            run.job_failed(name[:100], st, val)
             continue
         run.add_stats(val["stats"])
         checked += val["checked"]
